@@ -172,6 +172,21 @@ impl<T: Qcow2IoOps> Qcow2Dev<T> {
     ) -> Qcow2Result<usize> {
         match mapping.cluster_offset {
             Some(off) => {
+                // one new cluster holds stale data until its first writer has
+                // zeroed it: wait for the zeroing in progress, and read zeros
+                // if it isn't started yet
+                let new_cluster = {
+                    let cls_map = self.new_cluster.read().await;
+                    cls_map.get(&(off >> self.info.cluster_bits())).cloned()
+                };
+                if let Some(cluster) = new_cluster {
+                    let zeroing_started = cluster.read().await;
+                    if !(*zeroing_started) {
+                        zero_buf!(buf);
+                        return Ok(buf.len());
+                    }
+                }
+
                 let done = self.call_read(off + off_in_cls as u64, buf).await?;
 
                 // the host file may end inside one allocated cluster (new
